@@ -92,6 +92,10 @@ type sys struct {
 	everRoot map[string]int64 // every root ever committed (any branch) -> first height
 	recurs   bool             // some root hash was committed at two different heights
 	pruned   int
+	// abandoned: heights at which a commit of an abandoned branch was stored and no commit of the
+	// current chain has been stored since (a re-commit at a used height makes the store drop the
+	// version-index entries of the abandoned commit; a height that passes without a store call does not)
+	abandoned map[int64]bool
 }
 
 const (
@@ -190,6 +194,7 @@ func (s *sys) commit(kv []*types.KeyValue, content map[string]string) string {
 		return s.classify("commit-fails", fmt.Sprintf("commit at height %d on the tip state failed: %v", height, err), parent)
 	}
 	s.tip = height
+	delete(s.abandoned, height)
 	if h0, ok := s.everRoot[string(root)]; ok && h0 != height {
 		s.recurs = true
 	} else if !ok {
@@ -273,8 +278,10 @@ func (s *sys) pruneClass(kinds map[string]int, at int64) string {
 	class := "prune-deletes-referenced-records:" + strings.Join(ks, "+")
 	if len(ks) == 1 && ks[0] == "bare-hash" {
 		class += ":shared-across-heights"
+	} else if s.forked && len(s.abandoned) > 0 {
+		class += ":after-fork:abandoned-height-not-recommitted"
 	} else if s.forked {
-		class += ":after-fork"
+		class += ":after-fork:abandoned-heights-recommitted"
 	} else {
 		class += ":no-fork"
 	}
@@ -327,10 +334,24 @@ func (h harness) seq(r *vx.Run) *vx.Seq[*sys] {
 		mvx.ResetGlobals(cfg)
 		mavldb.VerifResetPrune()
 		mavldb.VerifSetPruning(true)
-		return &sys{h: h, cfg: cfg, st: mvx.Open(cfg, "memdb", ""), everRoot: map[string]int64{}}
+		return &sys{h: h, cfg: cfg, st: mvx.Open(cfg, "memdb", ""), everRoot: map[string]int64{}, abandoned: map[int64]bool{}}
 	}
 	q.OpName = h.opName
-	q.Apply = func(s *sys, i int) string {
+	suppress := func(s *sys, f string) string {
+		for _, sup := range strings.Split(os.Getenv("VERIF_SUPPRESS"), ",") {
+			if sup != "" && f != "" && strings.Contains(f, sup) {
+				// mutation demonstrations only: a failure class already reported is counted, not
+				// raised, and the history is not extended
+				r.Count("suppressed_cases", 1)
+				s.skip = true
+				return ""
+			}
+		}
+		return f
+	}
+	inner := func(s *sys, i int) string { return "" }
+	q.Apply = func(s *sys, i int) string { return suppress(s, inner(s, i)) }
+	inner = func(s *sys, i int) string {
 		if s.skip {
 			return ""
 		}
@@ -373,6 +394,7 @@ func (h harness) seq(r *vx.Run) *vx.Seq[*sys] {
 			}
 			s.tip -= k
 			for len(s.chain) > 0 && s.chain[len(s.chain)-1].height > s.tip {
+				s.abandoned[s.chain[len(s.chain)-1].height] = true
 				s.chain = s.chain[:len(s.chain)-1]
 			}
 			s.forked = true
@@ -408,7 +430,9 @@ func (h harness) seq(r *vx.Run) *vx.Seq[*sys] {
 		}
 		return ""
 	}
-	q.Check = func(s *sys) string {
+	check := func(s *sys) string { return "" }
+	q.Check = func(s *sys) string { return suppress(s, check(s)) }
+	check = func(s *sys) string {
 		if s.skip {
 			return ""
 		}
